@@ -2,7 +2,9 @@
   C20 — The command-line client is a faithful front end to the API.
 -/
 import HSModel.Cli
+import HSModel.CliTable
 import HSModel.Generated
+set_option linter.unusedSimpArgs false
 namespace HS.C20
 
 def SArg.typed : SArg → Prop
@@ -105,6 +107,60 @@ def requiredOptions : List (Str × Str × Str) :=
 
 theorem options_table : ∀ x ∈ requiredOptions, x ∈ Generated.clientOptions := by
   decide
+
+/-! ### `dispatch` is the interpretation of the table translated from `main()` on every run -/
+
+open CliTable in
+/-- a translated row as a `Row` -/
+def ofTuple (t : Str × List Str × List (Str × Str) × Str × List Str × List Str) : CliTable.Row :=
+  { dest := t.1, required := t.2.1, conv := t.2.2.1, method := t.2.2.2.1, args := t.2.2.2.2.1, post := t.2.2.2.2.2 }
+
+/-- the table `harness/hsv/clitext.py` translates from the source's `main()` on every run — the
+    `elif` chain verb by verb (flag, required variables in order, conversions, API method, argument
+    variables in order, what is done with the result besides printing), the option variables and
+    the default of the format id — is the table of the model -/
+theorem client_table_is_source :
+    Generated.clientRows.map ofTuple = CliTable.verbTable ∧
+    Generated.clientVars = CliTable.varSources ∧
+    Generated.clientFormatDefault = some CliTable.formatDefault := by decide +kernel
+
+/-- every name of the table resolves (flags to verbs, variables to option fields, methods to API
+    calls, the one conversion is `size = int(size)`) -/
+theorem table_resolves : CliTable.verbTable.map CliTable.Row.resolve = CliTable.tableE.map some := by
+  decide +kernel
+
+set_option hygiene false in
+macro "row_case" : tactic => `(tactic|
+  (simp only [*, decide_true, decide_false, CliTable.runRow, CliTable.given, List.any, Bool.or_false, Bool.not_eq_true',
+     CliTable.build, CliTable.valOf, List.map, Bool.false_eq_true, if_false, if_true, ↓reduceIte]
+   cases o.pid <;> cases o.path <;> cases o.algo <;> cases hsz : o.objSize <;> simp [optS] <;>
+     (try first
+       | (cases o.formatid <;> rfl)
+       | (rename_i s; cases pyIntOfStr s <;> simp))))
+
+/-- **The model's `dispatch` is the generic interpretation of that table**, for every combination of
+    verb flags and options: the first row whose flag is given; a missing required variable raises
+    ValueError; `size = int(size)` when the row says so; the API method is called with the values of
+    the row's variables in the row's order (the format id defaulted from hashstore.yaml). -/
+theorem dispatch_is_table (df : Str) (o : CliOpts) : dispatch df o = CliTable.dispatchT CliTable.tableE df o := by
+  unfold dispatch CliTable.dispatchT firstVerb chainOrder CliTable.tableE
+  simp only [List.find?]
+  by_cases h1 : Verb.getchecksum ∈ o.verbs
+  · row_case
+  by_cases h2 : Verb.storeobject ∈ o.verbs
+  · row_case
+  by_cases h3 : Verb.storemetadata ∈ o.verbs
+  · row_case
+  by_cases h4 : Verb.retrieveobject ∈ o.verbs
+  · row_case
+  by_cases h5 : Verb.retrievemetadata ∈ o.verbs
+  · row_case
+  by_cases h6 : Verb.deleteobject ∈ o.verbs
+  · row_case
+  by_cases h7 : Verb.deletemetadata ∈ o.verbs
+  · row_case
+  · simp only [*, decide_false]
+
 
 def sampleOpts : CliOpts :=
   { verbs := [Verb.storeobject], pid := some "p".toList, path := some (DataArg.ok 1), algo := none,
